@@ -816,7 +816,29 @@ def bi_list(st, args, kw):
         ref = st.new_ref('list')
         st.list_store(ref, et, SeqV(base, it.n))
         return Val(T.TList(et), ref)
+    if v.t.kind == 'ref' and not st.spec and _not_iterable(v.t.name):
+        # list(obj) on an object of a repository class without __iter__ / __getitem__: TypeError
+        E.check_or_raise(st, z3.BoolVal(False), 'TypeError')
     raise Undecided('list(%r)' % (v.t,))
+
+
+def _not_iterable(cls):
+    """True when every class of the MRO is a repository class read from source and none defines __iter__ or
+    __getitem__ (so iter(obj) raises TypeError)."""
+    from . import frontend
+    for c in R.mro(cls):
+        if c == 'object':
+            continue
+        ci = R.CLASSES.get(c)
+        if ci is None or not getattr(ci, 'module', None):
+            return False
+        try:
+            meths = frontend.class_methods(ci.module, c)
+        except Exception:
+            return False
+        if '__iter__' in meths or '__getitem__' in meths:
+            return False
+    return True
 
 
 def bi_tuple(st, args, kw):
@@ -954,6 +976,25 @@ def bi_int(st, args, kw):
     if h is not None:
         return h(st, args)
     raise Undecided('int(%r) needs the py_int model' % (v.t,))
+
+
+def bi_float(st, args, kw):
+    """float(x): numbers widen; for bytes/str the accepted language and the value are uninterpreted
+    (py_float_ok / redis_real), ValueError outside the language."""
+    v = args[0]
+    if v.t.kind == 'union':
+        v = E.concretize(st, v)
+    if v.t.kind == 'real':
+        return v
+    if v.t.kind in ('int', 'bool'):
+        return st.coerce(v, T.REAL)
+    if v.t.kind in ('bytes', 'str'):
+        ok = z3.Function('py_float_ok', z3.StringSort(), z3.BoolSort())
+        val = z3.Function('redis_real', z3.StringSort(), z3.RealSort())
+        if not st.spec:
+            E.check_or_raise(st, ok(v.z), 'ValueError')
+        return Val(T.REAL, val(v.z))
+    raise Undecided('float(%r)' % (v.t,))
 
 
 def bi_sorted(st, args, kw):
@@ -1283,7 +1324,7 @@ _BUILTINS = {
     'seq': bi_seq, 'setv': bi_setv, 'set_of': bi_set_of, 'sorted_by': bi_sorted_by,
     'distinct_by': bi_distinct_by, 'fresh': bi_fresh, 'is_fresh': bi_fresh, 'ite': bi_ite,
     'bool': bi_bool, 'str': bi_str, 'repr': bi_repr, 'callable': bi_callable, 'abs': bi_abs,
-    'int': bi_int, 'sorted': bi_sorted, 'range': bi_range, 'enumerate': bi_enumerate,
+    'int': bi_int, 'float': bi_float, 'sorted': bi_sorted, 'range': bi_range, 'enumerate': bi_enumerate,
     'zip': bi_zip, 'reversed': bi_reversed, 'bytearray': bi_bytearray,
     'memoryview': bi_memoryview, 'bytes': bi_bytes,
     'map': lambda st, args, kw: bi_map(st, args, kw), 'repeat': lambda st, args, kw: Val(T.Ty('repeat'), args[0]),
